@@ -866,8 +866,45 @@ def elementwise_sequence(E, val):
         paths = S["paths"]
         if len(paths) != 1 or paths[0].exit is not None or paths[0].pc:
             return None
-        eff = [e for e in paths[0].eff]
+        eff = [e for e in paths[0].eff if e[0] != "loop"]       # nested loops only build the element
         if len(eff) != 1 or eff[0][0] != "push" or eff[0][1] != ("local", name):
             return None
         return S["iter"], eff[0][2], ("elem", S["iter"], lid)
     return None
+
+
+def row_major_fill(E, val):
+    """`val` is a vector filled by a loop nest that visits a nested source in order:
+         for a in S { for b in a { acc.push(b) } }     /    .. { acc.extend(b) }  (extend = one more level)
+       -> (S, depth) ; None when anything is conditional, skipped, reordered or mixed with other effects."""
+    if not (isinstance(val, tuple) and len(val) == 4 and val[0] == "loopout"):
+        return None
+    name, lid, entry = val[1], val[2], val[3]
+    if not (is_call(entry, "new", 0) is not None or is_call(entry, "with_capacity", 1) is not None):
+        return None
+
+    def rec(lid, expect):
+        S = E.loop_summaries.get(lid)
+        if S is None or S.get("kind") != "for" or len(S["paths"]) != 1:
+            return None
+        p = S["paths"][0]
+        if p.exit is not None or p.pc:
+            return None
+        it = S["iter"]
+        if expect is not None and it != expect:
+            return None
+        el = ("elem", it, lid)
+        eff = list(p.eff)
+        if len(eff) != 1:
+            return None
+        e = eff[0]
+        if e[0] == "push" and e[1] == ("local", name) and e[2] == el:
+            return it, 1
+        if e[0] == "mut" and e[1].rsplit("::", 1)[-1] in ("extend", "extend_from_slice") and e[2] == ("local", name) and len(e[3]) == 1 and e[3][0] == el:
+            return it, 2
+        if e[0] == "loop":
+            r = rec(e[1], el)
+            if r is not None:
+                return it, r[1] + 1
+        return None
+    return rec(lid, None)
